@@ -42,75 +42,97 @@ PAGELINK_PAGING = ['Traph.paginate_webentity_pagelinks']
 MOST_LINKED = ['Traph.get_webentity_most_linked_pages_iter']
 PAGE_LINKS = ['!' + p for p in NETWORK + WE_LINKS + PAGELINK_PAGING + MOST_LINKED]
 
-prop('C01', ['R-FRESH', 'R-DIRTY-WRITTEN', 'R-MONOTONE-CALLERS', 'R-CRAWLED', 'R-READONLY'],
+MONO = ['R-MONOTONE-CALLERS', 'R-MONOTONE-POINTERS']
+WE_FILTERS = ['Traph.get_webentity_pagelinks_iter', 'Traph.paginate_webentity_pagelinks']
+
+prop('C01', ['R-FRESH', 'R-DIRTY-WRITTEN'] + MONO + ['R-CRAWLED', 'R-PAGE-REPORT', 'R-READONLY'],
      'Typestate dataflow on per-function CFGs over the typed call graph: (R-FRESH) no trie-node copy is written back, or '
      'handed to a callee that writes it, after a call that may rewrite trie blocks or a yield without an intervening '
      'refresh/read; (R-DIRTY-WRITTEN) every mutated node reaches write() before rebind/reload/return; (R-MONOTONE) page and '
-     'crawled marks are never cleared; (R-CRAWLED) a page is marked crawled only under the request\'s crawled argument or as '
-     'crawl-batch source; (R-READONLY) only write requests reach a store mutation.',
-     'no stale write-back, no lost flag update, page/crawled marks monotone, crawled only on request, reports count only '
-     'newly flagged pages, queries cannot add pages',
+     'crawled marks are never cleared and structural pointers are written only into empty slots by the allocation functions; '
+     '(R-CRAWLED) a page is marked crawled only under the request\'s crawled argument or as crawl-batch source; '
+     '(R-PAGE-REPORT) decision tables of add_page/__add_page: created-page reporting happens exactly on the path that flags a '
+     'new page; (R-READONLY) only write requests reach a store mutation.',
+     'no stale write-back, no lost flag update, page/crawled marks monotone, pointers append-only, crawled only on request, '
+     'reports count only newly flagged pages, queries cannot add pages',
      'that the enumerated page set equals the submitted set for every insertion order (value statement)')
 
-prop('C02', ['R-GEOMETRY', 'R-TAIL-PROTOCOL', 'R-ACCESSOR-TABLE', 'R-STORAGE-IFACE', 'R-MONOTONE-CALLERS'],
-     'Constant folding of the struct formats and derived constants, accessor/field tables computed from the node classes, '
-     'writer/reader agreement of the tail protocol, and call-shape conformance of every storage call against every back-end '
-     'that can be the receiver.',
-     'the on-disk layout read is the layout written (payload 74 = 75p-1, tail flags, field positions), multi-block reads are '
-     'possible on every back-end, the three sibling searches and the insert side implement one strict order',
+prop('C02', ['R-BST-AGREE', 'R-PARENT-PAIR', 'R-GEOMETRY', 'R-TAIL-PROTOCOL', 'R-ACCESSOR-TABLE', 'R-STORAGE-IFACE'] + MONO,
+     'Decision tables (abstract path execution) of the three sibling-search loops and of the insert attach code against the '
+     'strict stem order; parent/link pairing at the two allocation sites; constant folding of the struct formats and derived '
+     'constants; accessor/field tables computed from the node classes; writer/reader agreement of the tail protocol; '
+     'call-shape conformance of every storage call against every back-end that can be the receiver.',
+     'the three sibling searches and the insert side implement one strict order on full stems, bottom-up reconstruction follows '
+     'the pointers the insert wrote, the on-disk layout read is the layout written (payload 74 = 75p-1, tail flags, field '
+     'positions), multi-block reads are possible on every back-end, pointers are append-only',
      'byte identity of reconstructed LRUs and the BST invariant on reachable files as value statements')
 
-prop('C03', ['R-LINK-PAIR', 'R-HEAD-REPOINT', 'R-DIRECTION', 'R-ACCESSOR-TABLE', 'R-FRESH', ('R-NULL-HEAD', PAGE_LINKS)],
+prop('C03', ['R-LINK-PAIR', 'R-HEAD-REPOINT', 'R-DIRECTION', 'R-ACCESSOR-TABLE', ('R-FILTER-AGREE', ['Traph.get_page_links']), 'R-FRESH',
+             ('R-NULL-HEAD', PAGE_LINKS)],
      'Path counting over the loops that record a link batch (each pair once outbound, once inbound on every path), guard-fact '
      'obligations of LinkStore.add_links (prepend, repoint after write), forwarding of the direction switch at every call '
-     'site, field tables of the two link heads, freshness of the page block that carries the heads.',
+     'site, field tables of the two link heads, decision table of the page-level link filter, freshness of the page block '
+     'that carries the heads.',
      'each submitted pair is recorded once per direction on every path, lists never lose their older part, the two directions '
      'never cross, a self-link is reported once as internal, no NULL head is dereferenced in page-level queries',
      'equality of reported weights with submission counts')
 
-prop('C04', ['R-WE-ATTACH', 'R-OWN-ERROR', 'R-DIRTY-WRITTEN'],
-     'Origin/guard dataflow of every set_webentity site, guard-fact tables of the resolution requests, mutate-then-write '
-     'pairing of every prefix edit.',
-     'attaching an attached prefix is refused, resolution fails with TraphException iff the walk saw no webentity, every edit '
-     'is persisted, insert walk and query walk track the deepest webentity identically',
+prop('C04', ['R-TRACK-AGREE', 'R-WE-ATTACH', 'R-OWN-ERROR', 'R-DIRTY-WRITTEN'],
+     'Decision tables of the per-stem tracking code of add_lru and follow_lru (sibling agreement), origin/guard dataflow of '
+     'every set_webentity site, guard-fact tables of the resolution requests, mutate-then-write pairing of every prefix edit.',
+     'deepest webentity on the walk wins identically on the insert and the query walk, attaching an attached prefix is refused, '
+     'resolution fails with TraphException iff the walk saw no webentity, every edit is persisted',
      'the net effect of an arbitrary edit history as seen by the walk (value statement over histories)')
 
-prop('C05', ['R-STACK-BLOCKS'],
-     'Structure of the bounded traversals.',
-     'each visited block is re-read on pop so the ownership test is made on current data; the bounded walk stops exactly at '
-     'nodes owned by another webentity (DFS and in-order variants agree)',
+prop('C05', ['R-RELEVANCE', 'R-STACK-BLOCKS'],
+     'Decision tables of the loop bodies of webentity_dfs_iter and of the recursive in-order traversal against the relevance '
+     'specification; structure of the traversal stacks.',
+     'the bounded walk stops exactly at nodes owned by a webentity other than the start, continues through their siblings, and '
+     'the DFS and in-order variants agree; each visited block is re-read on pop',
      'the partition statement itself')
 
-prop('C06', ['R-ID', 'R-WE-ATTACH'],
-     'Allocation and attach obligations of automatic creation.',
-     'one id per creation, none when nothing is attachable; both automatic creation sites expand variations; '
-     'get_potential_prefix mirrors the insertion ladder',
+prop('C06', ['R-LADDER-AGREE', 'R-TRACK-AGREE', 'R-ID', 'R-RULE-INSTALL', 'R-WE-ATTACH'],
+     'Decision tables of the creation ladder in __add_page and get_potential_prefix (sibling agreement and specification), of '
+     'the candidate loop (strictly longer wins), of __create_webentity and of rule installation; tracking agreement; '
+     'allocation obligations.',
+     'get_potential_prefix mirrors __add_page; strict "longer than E"; default rule only when K empty and E absent; variations '
+     'always expanded; one id per creation; installing a rule flags, writes and re-inserts every page below the anchor',
      'what the regular expressions match')
 
-prop('C07', ['R-DIRECTION', ('R-NULL-HEAD', NETWORK)],
-     'Direction forwarding and NULL-head guards of the network queries.',
-     'inbound is the same code with the other head; no NULL head dereferenced; fast and slow variants drop/keep the same links',
+prop('C07', ['R-PROPAGATE', ('R-FILTER-AGREE', NETWORK), 'R-DIRECTION', ('R-NULL-HEAD', NETWORK)],
+     'Decision table of dfs_with_webentity_iter (nearest webentity carried down), decision tables of the fast and slow network '
+     'filters against one specification, direction forwarding, NULL-head guards.',
+     'nearest webentity is propagated correctly, fast and slow variants drop/keep the same links, inbound is the same code '
+     'with the other head, page tallies only under is_page and a source webentity',
      'weight sums and transpose equality as values')
 
-prop('C08', [('R-NULL-HEAD', WE_LINKS), 'R-DISTINCT-DEGREE', 'R-DIRECTION'],
-     'NULL-head guards, de-duplicating iterators in degree counters, direction forwarding.',
-     'no NULL head dereferenced (block 0 parses as a stub and fabricates a link), degrees count distinct pages',
+prop('C08', [('R-NULL-HEAD', WE_LINKS), ('R-FILTER-AGREE', WE_FILTERS), 'R-RELEVANCE', 'R-DISTINCT-DEGREE', 'R-DIRECTION'],
+     'NULL-head guards, decision tables of the per-webentity link filters, relevance tables of the bounded walk, '
+     'de-duplicating iterators in degree counters, direction forwarding.',
+     'no NULL head dereferenced (block 0 parses as a stub and fabricates a link), links kept iff (outbound and other webentity) '
+     'or (internal and same webentity), inbound iff source webentity differs, degrees count distinct pages',
      'exactness of the returned sets')
 
-prop('C09', [('R-TOKEN-PAIR', ['Traph.paginate_webentity_pages']), 'R-MONOTONE-CALLERS'],
-     'Pairing of the two token halves in the page pagination loop.',
-     'the two halves of a token always describe the same node; nodes never move so a path stays valid',
+prop('C09', [('R-TOKEN-PAIR', ['Traph.paginate_webentity_pages']), 'R-TOKEN-CODEC', 'R-ORDER', 'R-RELEVANCE'] + MONO,
+     'Pairing of the two token halves, writer/reader digit tables and radix constants of the path codec, emission order and '
+     'strict resume filter of the in-order walk, relevance tables, append-only pointers.',
+     'the two halves of a token describe the same node, path digits and radices agree between writer and reader, ascending '
+     'in-order emission with strict resume, same page set as the unpaginated query, nodes never move so a path stays valid',
      'the k+1 look-ahead arithmetic and completeness at every cut')
 
-prop('C10', [('R-TOKEN-PAIR', PAGELINK_PAGING), ('R-NULL-HEAD', PAGELINK_PAGING)],
-     'Pairing of the two token halves in the pagelink pagination loop; NULL-head guard of the link walk.',
-     'token halves advance together (also on link-less pages); no NULL head dereferenced',
+prop('C10', [('R-TOKEN-PAIR', PAGELINK_PAGING), ('R-FILTER-AGREE', WE_FILTERS), ('R-NULL-HEAD', PAGELINK_PAGING), 'R-TOKEN-CODEC'],
+     'Pairing of the two token halves in the pagelink pagination loop, agreement of its link filter with the unpaginated '
+     'query, NULL-head guard, token codec.',
+     'token halves advance together (also on link-less pages), same links as the unpaginated query for the same switches, no '
+     'NULL head dereferenced',
      'counts per answer')
 
-prop('C11', ['R-GEOMETRY', 'R-DIRTY-WRITTEN', 'R-ID'],
-     'Block geometry (every write is one packed block), header reload obligations, mutate-then-write pairing.',
-     'files stay whole numbers of blocks, reopen re-reads the header instead of resetting it, clear rebuilds both structures, '
-     'no state lives only in a node copy',
+prop('C11', ['R-OPEN-TABLE', 'R-CLEAR-AGREE', 'R-GEOMETRY', 'R-ID', 'R-DIRTY-WRITTEN'],
+     'Decision table of Traph.__init__ (which files are opened how, when refused) and of Traph.clear; block geometry (every '
+     'write is one packed block); header reload obligations; mutate-then-write pairing.',
+     'reopen never truncates, create only when asked or when nothing exists, a single file or a partial block is refused, '
+     'clear resets and rebuilds both structures, files stay whole numbers of blocks, reopen re-reads the header, no state lives '
+     'only in a node copy',
      'equality of every observable answer before/after')
 
 prop('C12', ['R-ID', 'R-DIRTY-WRITTEN'],
@@ -120,10 +142,12 @@ prop('C12', ['R-ID', 'R-DIRTY-WRITTEN'],
      'request shared by all attached prefixes, header preserved on reopen and rebuilt on clear',
      '32-bit overflow of the counter')
 
-prop('C13', ['R-WE-ATTACH', 'R-MONOTONE-CALLERS'],
-     'Origin dataflow of every node that receives a webentity id; who-may-call on the mark setters.',
-     'every path that can attach a prefix goes through add_lru(flag_can_have_child_webentities=True); the mark is never set '
-     'again; the shortcut prunes children only',
+prop('C13', ['R-WE-ATTACH', 'R-ANCESTOR-FLAG', 'R-SKIP-CHILDLESS'] + MONO,
+     'Origin dataflow of every node that receives a webentity id; decision tables of both loops of add_lru (ancestor '
+     'unmarking) with a linear-integer domain for `i < l - 1`; decision table of dfs_iter (shortcut prunes children only); '
+     'who-may-call on the mark setters.',
+     'every path that can attach a prefix goes through add_lru(flag_can_have_child_webentities=True), which clears and persists '
+     'the mark on every proper ancestor, existing or new; the mark is never set again; the shortcut never prunes siblings',
      'exactness of the parent query (value statement)')
 
 prop('C14', ['R-READONLY', 'R-WRITE-API'],
@@ -133,11 +157,12 @@ prop('C14', ['R-READONLY', 'R-WRITE-API'],
      'no path from any query entry point to a mutation of either store (complete for the statement modulo A1-A2)',
      'nothing beyond A1-A2')
 
-prop('C15', ['R-STORAGE-IFACE'],
+prop('C15', ['R-STORAGE-IFACE', 'R-OPEN-TABLE'],
      'Signature conformance of every storage call site against every back-end class the typed receiver can be (protocol '
-     'sites), back-end/guard correlation for facade sites, return conventions and cursor protocol of read().',
+     'sites), back-end/guard correlation for facade sites, return conventions and cursor protocol of read(); decision table '
+     'of the constructor (the in-memory branch is a fresh index).',
      'every call shape used by node/header/store code is accepted by every back-end that can be the receiver; read/write '
-     'return conventions and the read-cursor protocol agree',
+     'return conventions and the read-cursor protocol agree; a memory index is set up like a freshly created file index',
      'equality of answers for every history')
 
 prop('C16', ['R-FRESH', 'R-STACK-BLOCKS'],
@@ -146,24 +171,30 @@ prop('C16', ['R-FRESH', 'R-STACK-BLOCKS'],
      'every node cached across a yield point is refreshed before it is written; traversals keep block numbers and re-read',
      'schedule independence of the final state and the qualified-throughout bounds on answers')
 
-prop('C17', ['R-VARIATIONS'],
+prop('C17', ['R-VARIATIONS', 'R-LADDER-AGREE', 'R-ID'],
      'List-length-set abstract interpretation and None-ness guard facts of helpers.lru_variations / https_variation; '
-     'anchoring of the scheme test and rewrite; shape of the result list.',
-     'expansion cannot raise, the scheme rewrite touches only the leading scheme stem, the given prefix is listed first',
+     'anchoring of the scheme test and rewrite; shape of the result list; both automatic creation sites expand; one id for all '
+     'attachable variations.',
+     'expansion cannot raise, the scheme rewrite touches only the leading scheme stem, the given prefix is listed first, '
+     'automatic creation always expands and attaches the class under one id',
      'closure of the expansion (an algebraic law over byte strings)')
 
-prop('C18', ['R-NONE-CHECK', 'R-POINTEE-FIRST', 'R-GEOMETRY'],
-     'Guard facts on every storage.read result, persisted-before-pointed typestate of every pointer store, block geometry.',
-     'a block a cut may have removed is never unpacked unchecked, a pointer is never on disk before its pointee, all writes are '
-     'whole blocks, a partial block or a single file is refused with the library error',
+prop('C18', ['R-OPEN-TABLE', 'R-POINTEE-FIRST', 'R-GEOMETRY', 'R-NONE-CHECK'],
+     'Decision table of the constructor (refusals), persisted-before-pointed typestate of every pointer store, block geometry, '
+     'guard facts on every storage.read result.',
+     'a partial block or a single file is refused with the library error, a pointer is never on disk before its pointee, all '
+     'writes are whole blocks, a block a cut may have removed is never unpacked unchecked',
      'the behaviour at every cut of every history (crash points are not a syntactic object)')
 
-prop('C19', ['R-CHUNK-LAST', 'R-GEOMETRY'],
-     'Reachability after the terminal chunk yield; block geometry.',
-     'no block after the terminal chunk, allocation only on missing stems, one stub per link end',
+prop('C19', ['R-CHUNK-LAST', 'R-ALLOC', 'R-GEOMETRY', 'R-HEAD-REPOINT'],
+     'Reachability after the terminal chunk yield; who-may-allocate and decision tables of the insert path (found stems '
+     'allocate and write nothing); block geometry; one stub per batch element.',
+     'no block after the terminal chunk, allocation only on missing stems, re-adding takes the no-write path, one stub per link end',
      'the closed-form block count')
 
-prop('C20', [('R-NULL-HEAD', MOST_LINKED), 'R-DISTINCT-DEGREE'],
-     'NULL-head guard and de-duplicating iterator of the indegree counter.',
-     'a page without inbound list contributes 0 and not the header block parsed as one stub; indegree counts distinct sources',
+prop('C20', [('R-NULL-HEAD', MOST_LINKED), 'R-DISTINCT-DEGREE', 'R-TOPK', 'R-RELEVANCE'],
+     'NULL-head guard and de-duplicating iterator of the indegree counter; heap key/trim/drain obligations; depth atom of the '
+     'bounded walk.',
+     'a page without inbound list contributes 0 and not the header block parsed as one stub; indegree counts distinct sources; '
+     'the heap is keyed by indegree, trimmed only above k and drained in non-increasing order; the depth limit prunes children only',
      'top-k optimality and order as values')
